@@ -106,7 +106,7 @@ class C20(PropertyCheck):
         "buffer), their tests and steps are regenerated from the C text (pth_scans_as_written), and under the invariant of "
         "every reachable pass (PInv of Lemmas/C16H, established by preamble_spec, preserved by partLoop_spec) they read "
         "only cells of the window [il, jr] and agree with the guarded C16 model (pth_pass_scans_in_window, "
-        "pth_first_pass_scans_in_window); the scans of lib/fff/fff_vector.c (_fff_pth_element / _fff_pth_interval) are regenerated too and proved " 
+        "pth_first_pass_scans_in_window, stores: pth_pass_swaps_in_window); the scans of lib/fff/fff_vector.c (_fff_pth_element / _fff_pth_interval) are regenerated too and proved " 
         "identical (fff_pth_scans_same_as_quantile); the partition protocol around them is compared with the C16 model, "
         "not translated",
         "extension modules built from .pyx cannot be rebuilt in this sandbox: probes through them exercise the "
